@@ -1153,6 +1153,9 @@ impl<'a> GeneratorState<'a> {
                     .syntax_error("Unsupported cycle sleep value", pos))
             }
         };
+        // DEC DUMMY and PLA change N and Z: nothing is known about the flags any more
+        self.flags = FlagsState::Unknown;
+        self.carry_flag_ok = false;
         Ok(())
     }
 
